@@ -992,6 +992,10 @@ def _register_capabilities_hooks(converter: cattrs.Converter) -> cattrs.Converte
             _location_hook,
         ),
         (
+            Union[lsp_types.Location, Sequence[lsp_types.Location]],
+            _location_hook,
+        ),
+        (
             Optional[
                 Union[
                     Sequence[lsp_types.SymbolInformation],
@@ -1033,6 +1037,10 @@ def _register_capabilities_hooks(converter: cattrs.Converter) -> cattrs.Converte
         ),
         (
             Optional[Union[str, lsp_types.MarkupContent]],
+            _markup_content_hook,
+        ),
+        (
+            Union[str, lsp_types.MarkedStringWithLanguage],
             _markup_content_hook,
         ),
         (
@@ -1227,6 +1235,8 @@ def _register_required_structure_hooks(
         lsp_types.NotebookDocumentFilterScheme,
         lsp_types.NotebookDocumentFilterPattern,
     ]:
+        if object_ is None:
+            return None
         if isinstance(object_, str):
             return str(object_)
         elif "notebookType" in object_:
@@ -1268,6 +1278,24 @@ def _register_required_structure_hooks(
             _notebook_filter_hook,
         ),
         (NotebookSelectorItem, _notebook_filter_hook),
+        (Optional[NotebookSelectorItem], _notebook_filter_hook),
+        (
+            Union[
+                lsp_types.NotebookDocumentFilterNotebookType,
+                lsp_types.NotebookDocumentFilterScheme,
+                lsp_types.NotebookDocumentFilterPattern,
+            ],
+            _notebook_filter_hook,
+        ),
+        (
+            Union[
+                lsp_types.TextDocumentFilterLanguage,
+                lsp_types.TextDocumentFilterScheme,
+                lsp_types.TextDocumentFilterPattern,
+            ],
+            _text_document_filter_hook,
+        ),
+        (Optional[Union[str, Sequence[str]]], lambda object_, _type: object_),
         (
             Union[lsp_types.LSPObject, Sequence["LSPAny"], str, int, float, bool, None],
             _lsp_object_hook,
